@@ -28,5 +28,9 @@ $(B)/swasan_%: sweeps/%.c $(ENGINE) engine/sanhooks.c $(HDRS) $(LIB) sweeps/swee
 	@mkdir -p $(B)
 	$(CLANG) $(SANFLAGS) -Isweeps -DCAT_UNSOLICITED_CMD_BUFFER_SIZE=1 $(ENGINE) $< engine/sanhooks.c $(REPO)/src/cat.c -o $@
 
+$(B)/threads_r%: sched/threads.c $(LIB)
+	@mkdir -p $(B)
+	$(CC) -O1 -g -Wall -Wextra -I$(REPO)/src -DCAT_UNSOLICITED_CMD_BUFFER_SIZE=$* sched/threads.c $(REPO)/src/cat.c -lpthread -o $@
+
 clean:
 	rm -rf build
